@@ -20,6 +20,56 @@ LABELS = ['C03.ProcOrder', 'C03.AppOrder', 'C03.ZeroNeverAuto', 'C03.FailureStra
 TERMINAL = ['C03.StopStrategy', 'C03.PlanCompleted']
 
 
+def directed():
+    """Families that seeded generation hits too rarely."""
+    out = []
+    # the target is lost between the start request and its execution, for a required process, under each strategy
+    # (app level and program level), with a later group planned
+    for strat, level in ((s, l) for s in ('ABORT', 'STOP', 'CONTINUE') for l in ('app', 'program')):
+        p1 = {'name': 'p1', 'seq': 1, 'required': True, 'target': 'n2', 'behaviour': 'normal', 'startsecs': 1}
+        if level == 'program':
+            p1['strategy'] = strat
+        app = {'name': 'A', 'seq': 1, 'strategy': strat if level == 'app' else ('CONTINUE' if strat != 'CONTINUE' else 'ABORT'),
+               'procs': [{'name': 'p0', 'seq': 1, 'required': False, 'target': 'n1', 'behaviour': 'normal', 'startsecs': 1},
+                         p1,
+                         {'name': 'p2', 'seq': 2, 'required': False, 'target': 'n1', 'behaviour': 'normal', 'startsecs': 1}]}
+        for trig in (('start_application', 'n1', 'start_application', ['CONFIG', 'A', False]), ('distribution',)):
+            sc = {'apps': [dict(app, seq=1 if trig[0] == 'distribution' else 0)], 'trigger': trig, 'drops': [], 'n': 2,
+                  'rounds': 22, 'lose_at_req': 'A:p1'}
+            if trig[0] == 'distribution':
+                sc.update(pre_rounds=25, rounds=4)
+            out.append(sc)
+            # the same process simply fails (spawn error)
+            sc2 = json.loads(json.dumps(sc))
+            del sc2['lose_at_req']
+            sc2['apps'][0]['procs'][1]['behaviour'] = 'spawnerr'
+            out.append(sc2)
+    # applications sharing a start_sequence, one of them longer than the other, a third one behind, both declaration
+    # orders
+    for order in (('A', 'B'), ('B', 'A')):
+        apps = {'A': {'name': order[0], 'seq': 1, 'strategy': 'ABORT',
+                      'procs': [{'name': 'a1', 'seq': 1, 'target': 'n2', 'behaviour': 'normal', 'startsecs': 5},
+                                {'name': 'a2', 'seq': 2, 'target': 'n1', 'behaviour': 'normal', 'startsecs': 5}]},
+                'B': {'name': order[1], 'seq': 1, 'strategy': 'ABORT',
+                      'procs': [{'name': 'b1', 'seq': 1, 'target': 'n1', 'behaviour': 'normal', 'startsecs': 1}]}}
+        third = {'name': 'C', 'seq': 2, 'strategy': 'ABORT',
+                 'procs': [{'name': 'c1', 'seq': 1, 'target': 'n2', 'behaviour': 'normal', 'startsecs': 1}]}
+        for trig in (('distribution',), ('restart_sequence', 'n1', 'restart_sequence', [False])):
+            sc = {'apps': [apps['A'], apps['B'], third], 'trigger': trig, 'drops': [], 'n': 2, 'rounds': 24}
+            if trig[0] == 'distribution':
+                sc.update(pre_rounds=30, rounds=4)
+            out.append(sc)
+    # known finding F22 (always part of the run): the Master is lost with the request of a required process (STOP)
+    out.append({'apps': [{'name': 'A', 'seq': 0, 'strategy': 'STOP',
+                          'procs': [{'name': 'p1', 'seq': 1, 'required': True, 'target': 'n1', 'behaviour': 'normal',
+                                     'startsecs': 1},
+                                    {'name': 'p2', 'seq': 3, 'required': True, 'target': 'n2', 'behaviour': 'normal',
+                                     'startsecs': 5}]}],
+                'trigger': ('start_application', 'n1', 'start_application', ['CONFIG', 'A', False]), 'drops': [],
+                'rounds': 22, 'n': 2, 'skew': ['n2', 6], 'lose_at_req': 'A:p2'})
+    return out
+
+
 def main(tier, seed, replay=None):
     v = vlib.Verdict('C03', tier, seed)
     if replay:
@@ -28,6 +78,7 @@ def main(tier, seed, replay=None):
     else:
         rnd = random.Random(seed * 9973 + 3)
         scs = [sk.gen_start_scenario(rnd, drops=False) for _ in range(400 if tier == 'quick' else 6000)]
+        scs += directed()
     sk.model_check(v, tier)
     traces = sk.run_scenarios(scs)
     allv = sk.judge(v, traces, scs, LABELS, TERMINAL)
